@@ -42,9 +42,52 @@ def err_class(e: BaseException) -> str:
     return n if n in ("NotImplementedError", "ValueError", "KeyError") else "other"
 
 
+DELAYS: Optional[random.Random] = None
+ARM_STATS: Dict[str, int] = {}  # how the evaluations of this run were served (reported in the evidence by the checks)
+
+
+def configure(rng: Optional[random.Random] = None) -> None:
+    """bind the ContentEvaluationResult-based evaluators; with `rng`, bind their suspending variants (vf/schedules.py) and let every
+    evaluation below run under a random schedule half of the time (each evaluator / provider call yields 0-3 times before answering)"""
+    global DELAYS  # pylint:disable=global-statement
+    evalenv.current_fv.set(evalenv.FV)
+    if rng is None:
+        DELAYS = None
+        evalenv.configure_cer_based()
+    else:
+        from . import schedules as S
+        DELAYS = random.Random(rng.getrandbits(32))
+        S.configure()
+
+
+def disarm() -> None:
+    """reference runs: content-evaluation-result based evaluators, nothing suspends"""
+    if DELAYS is None:
+        return
+    from . import schedules as S
+    evalenv.current_fv.set(evalenv.FV)
+    S.set_schedule({})
+
+
+def _arm(rc=(), fc=(), hints=(), pkg=()) -> None:
+    if DELAYS is None:
+        return
+    from . import schedules as S
+    methods = DELAYS.random() < 0.5
+    evalenv.current_fv.set(evalenv.FV_METHODS if methods else evalenv.FV)
+    yielding = DELAYS.random() < 0.5
+    k = ("evaluate_<key> methods" if methods else "content-evaluation-result based") + (", suspending" if yielding else ", not suspending")
+    ARM_STATS[k] = ARM_STATS.get(k, 0) + 1
+    if not yielding:
+        S.set_schedule({})
+    else:
+        S.set_schedule({(kind, k): DELAYS.randint(0, 3) for kind, ks in (("rc", rc), ("fc", fc), ("hint", hints), ("pkg", pkg)) for k in ks})
+
+
 def eval_rc(tree, rc: Dict[str, str], hints: Dict[str, str]) -> Dict[str, Any]:
     """requirement_constraint_evaluation(tree) under the given assignment"""
     evalenv.set_cer(evalenv.make_cer(rc=rc, hints=hints, fc={}))
+    _arm(rc, (), hints)
 
     async def go():
         return await requirement_constraint_evaluation(tree)
@@ -68,6 +111,7 @@ def eval_fc_tree(tree, fc: Dict[str, Tuple[bool, Optional[str]]]) -> Dict[str, A
 
 def eval_fc_string(expr: Optional[str], fc: Dict[str, Tuple[bool, Optional[str]]]) -> Dict[str, Any]:
     evalenv.set_cer(evalenv.make_cer(fc=fc))
+    _arm((), fc, ())
 
     async def go():
         return await format_constraint_evaluation(expr)
@@ -81,6 +125,7 @@ def eval_fc_string(expr: Optional[str], fc: Dict[str, Tuple[bool, Optional[str]]
 
 def eval_ahb(tree, rc, hints, fc) -> Dict[str, Any]:
     evalenv.set_cer(evalenv.make_cer(rc=rc, hints=hints, fc=fc))
+    _arm(rc, fc, hints)
 
     async def go():
         return await evaluate_ahb_expression_tree(tree)
